@@ -105,7 +105,28 @@ class BaseSection():
         """
         data = b''.join(bytearray.fromhex(
             str(line.rstrip(), encoding='ascii')) for line in lines)
-        return cls(data=data, version=version)
+        return cls(data=cls._pad_data(data, version), version=version)
+
+    @classmethod
+    def _pad_data(cls, data, version):
+        """Completes section data read from a file that ends the section early.
+
+        PICO-8 leaves out the rows at the end of a section that are empty. The
+        region in memory always has its full size.
+
+        Args:
+          data: The data read from the file.
+          version: The PICO-8 data version from the game file header.
+
+        Returns:
+          The data, followed by the rest of an empty section if it is shorter
+          than that.
+        """
+        if not hasattr(cls, 'empty'):
+            # (The base class does not know the size of a region.)
+            return data
+        empty_data = cls.empty(version=version)._data
+        return bytes(data) + bytes(empty_data[len(data):])
 
     HEX_LINE_LENGTH_BYTES = 64
 
